@@ -83,16 +83,47 @@ def home_site(ctx: Ctx, g: Graph, ev: Ev) -> Ev:
     return home
 
 
+_marker_fields: Dict[int, set] = {}
+
+
+def hidden_marker_fields(ctx: Ctx) -> set:
+    """Attribute names of the hiding dictionaries that hold the set of hidden keys: the instance attributes the constructor
+    creates as an empty set (whatever they are called)."""
+    if id(ctx) in _marker_fields:
+        return _marker_fields[id(ctx)]
+    out = set()
+    for ci in storage_classes(ctx):
+        if ci is ctx.storage_class():
+            continue
+        init = ci.methods.get('__init__')
+        if init is None:
+            continue
+        for n in ast.walk(init.node):
+            if isinstance(n, (ast.Assign, ast.AnnAssign)):
+                tgts = n.targets if isinstance(n, ast.Assign) else [n.target]
+                v = n.value
+                is_set = (isinstance(v, ast.Call) and isinstance(v.func, ast.Name) and v.func.id in ('set', 'frozenset')) \
+                    or isinstance(v, (ast.Set, ast.SetComp))
+                for t_ in tgts:
+                    if is_set and isinstance(t_, ast.Attribute) and isinstance(t_.value, ast.Name) and t_.value.id == 'self':
+                        out.add(t_.attr)
+    if not out:
+        raise AnalysisError('the set of hidden keys of the hiding dictionary not found (HIDE anchor vanished)')
+    _marker_fields[id(ctx)] = out
+    return out
+
+
 def hides(ctx: Ctx, g: Graph) -> List[Tuple[Ev, str, tuple]]:
-    """`<storage>.<field>._hidden_keys.add(key)` primitives -> (event, field, key term)."""
+    """`<storage>.<field>.<hidden keys>.add(key)` primitives -> (event, field, key term)."""
     known = set(storage_fields(ctx))
+    markers = hidden_marker_fields(ctx)
     out = []
     for ev in g.events('call'):
         c = ev.node
         if not (isinstance(c, ast.Call) and isinstance(c.func, ast.Attribute) and c.func.attr == 'add'):
             continue
         recv = sym.term(ctx.p, c.func.value, ev.inst)
-        if not (isinstance(recv, tuple) and recv[0] == 'attr' and recv[2] == '_hidden_keys'):
+        if not (isinstance(recv, tuple) and recv[0] == 'attr' and recv[2] in markers):
             continue
         fld = store_field(recv[1])
         if fld in known and c.args:
